@@ -70,7 +70,7 @@ Section Inv.
     unfold parse_addl in H. cbn [opt_list] in HI. inversion HI as [|? ? H1 _]; subst.
     destruct Sa as [|b| | | | |];
       try (binv H; apply ret_inv in H as [<- _]; eexists; split; [reflexivity|]; eapply H1; eauto; fail).
-    apply ret_inv in H as [<- _]. reflexivity.
+    apply ret_inv in H as [<- _]. now left.
   Qed.
 
   Lemma parse_some_inv key kvs st oe st' :
@@ -119,7 +119,7 @@ Section Inv.
     with_key (parse_deps P) (s_ "dependencies") kvs (ret None) st = POk (deps, st') ->
     deps_rel O w kvs deps.
   Proof.
-    intros Hok HI H. rewrite with_key_lookup in H. unfold deps_rel.
+    intros Hok HI H. apply deps_parsed_rel. rewrite with_key_lookup in H. unfold deps_parsed.
     destruct (lookup (s_ "dependencies") kvs) as [Sp|]; [|apply ret_inv in H as [<- _]; reflexivity].
     unfold parse_deps in H. destruct Sp as [| | | | | |dd]; try (exfalso; eapply fail_inv; eauto; fail).
     binv H. apply ret_inv in H as [<- _]. cbn [dict_ok obj_vals] in *. destruct Hok as [Hnd _].
